@@ -18,7 +18,7 @@ variable {K : Type} [Field K] [DecidableEq K]
 /-- symmetric stored pattern and symmetric denoted values -/
 structure SymCRS (A : CRS K) : Prop where
   pat : ∀ i j, i < A.nrows → j < A.nrows → (j ∈ (A.row i).map (·.1) ↔ i ∈ (A.row j).map (·.1))
-  val : ∀ i j, A.get i j = A.get j i
+  val : ∀ i j, i < A.nrows → j < A.nrows → A.get i j = A.get j i
 
 theorem ilu0_LU_symm (A : CRS K) (hA : A.WF) (hsq : A.ncols = A.nrows) (hs : A.sortedb = true) (hsym : SymCRS A)
     (F : IluFactors K) (hF : ilu0Factor A = .ok F) :
@@ -103,11 +103,32 @@ theorem ilu0_LU_symm (A : CRS K) (hA : A.WF) (hsq : A.ncols = A.nrows) (hs : A.s
         have hk' : k < j := mem_range.mp hk
         rw [← ih k hk' j hk' (by omega), ← ih k hk' i (by omega) hi]; ring
       rw [hs] at e1
-      have := hsym.val i j
+      have := hsym.val i j hi (by omega)
       rw [← e1, ← e2] at this
       exact add_right_cancel this
     · have hmem' : i ∉ (A.row j).map (·.1) := fun h => hmem ((hsym.pat i j hi (by omega)).mpr h)
       rw [hLp i j hi hmem, hUp j i (by omega) hmem']; ring
+
+/-- the factors of a successful ILU(0) vanish on and beyond the diagonal (all indices, also out of range) -/
+theorem ilu0_tri_zero (A : CRS K) (hA : A.WF) (hsq : A.ncols = A.nrows) (hs : A.sortedb = true)
+    (F : IluFactors K) (hF : ilu0Factor A = .ok F) :
+    (∀ i k, i ≤ k → F.L.get i k = 0) ∧ (∀ k c, c ≤ k → F.U.get k c = 0) := by
+  obtain ⟨inv, _, _⟩ := ilu0Factor_inv A hA hsq hs F hF
+  constructor
+  · intro i k hk
+    unfold CRS.get CRS.row
+    apply rowGet_zero_of_forall_ne
+    intro e he heq
+    by_cases hi : i < A.nrows
+    · have := inv.lower i hi e he; omega
+    · rw [getD_of_size_le _ _ _ (by rw [inv.sizeL]; omega)] at he; cases he
+  · intro k c hc
+    unfold CRS.get CRS.row
+    apply rowGet_zero_of_forall_ne
+    intro e he heq
+    by_cases hk : k < A.nrows
+    · have := (inv.upper k hk e he).1; omega
+    · rw [getD_of_size_le _ _ _ (by rw [inv.sizeU]; omega)] at he; cases he
 
 /-- the matrix `M = (I+L)(D⁻¹+U)` the triangular solve inverts -/
 def iluM (F : IluFactors K) (n : Nat) : Matrix (Fin n) (Fin n) K :=
